@@ -5,7 +5,7 @@ use std::collections::{BTreeMap, BTreeSet};
 
 use vaporetto::verif::{self, Feature};
 use vaporetto::{Model, Predictor, Sentence, SolverType, Trainer};
-use vgen::feat::{boundary_features, tag_features, RFeature, TrainConfig};
+use vgen::feat::{sentence_features, tag_features, RFeature, TrainConfig};
 use vgen::fmt::RefSentence;
 use vgen::json::{clip, J};
 use vgen::mirror::ModelData;
@@ -253,9 +253,25 @@ pub struct Trained {
 }
 
 /// Builds the sentences, the trainer, adds every example and trains. Not guarded.
+/// Corpus sentences reach the trainer the way the `train` tool feeds them (parsed from corpus lines
+/// written by the reference writers) or built through the accessor API, alternating by position.
+pub fn corpus_sentence(rs: &RefSentence, i: usize) -> Sentence<'static, 'static> {
+    let route = (i + rs.chars.len()) % 3;
+    if route == 0 && !rs.labels.contains(&2) {
+        if let Ok(s) = Sentence::from_tokenized(&vgen::fmt::write_tokenized(rs)) {
+            return s;
+        }
+    } else if route == 1 {
+        if let Ok(s) = Sentence::from_partial_annotation(&crate::p_sentence::write_partial_ref(rs)) {
+            return s;
+        }
+    }
+    build_sentence(rs)
+}
+
 pub fn train_case(tc: &TrainCase) -> Result<Trained, String> {
-    let sents: Vec<Sentence<'static, 'static>> = tc.corpus.iter().map(build_sentence).collect();
-    let tdict: Vec<Sentence<'static, 'static>> = tc.tag_dict.iter().map(build_sentence).collect();
+    let sents: Vec<Sentence<'static, 'static>> = tc.corpus.iter().enumerate().map(|(i, rs)| corpus_sentence(rs, i)).collect();
+    let tdict: Vec<Sentence<'static, 'static>> = tc.tag_dict.iter().enumerate().map(|(i, rs)| corpus_sentence(rs, i + 1)).collect();
     let mut trainer = Trainer::new(tc.cfg.char_w, tc.cfg.char_n, tc.cfg.type_w, tc.cfg.type_n, tc.cfg.dict.clone(), tc.cfg.bucket, &tdict)
         .map_err(|e| format!("Trainer::new: {e}"))?;
     for s in &sents {
@@ -277,7 +293,38 @@ pub fn run_c10(ctx: &mut Ctx, from: u64, to: u64) {
         let mut rng = Rng::new(case_seed(ctx.seed, "C10", k));
         let class = *rng.pick(&[CorpusClass::Normal, CorpusClass::Normal, CorpusClass::PartialAnnotation, CorpusClass::AllUnknown, CorpusClass::SingleChar, CorpusClass::OnlyWordBoundaries]);
         let tags = rng.chance(1, 3);
-        let tc = gen_train_case(&mut rng, 0, 4, class, tags);
+        let mut tc = gen_train_case(&mut rng, 0, 4, class, tags);
+        if k % 40 == 7 {
+            // a window wider than 128 around boundaries that have more than 128 characters on both sides
+            let alpha: Vec<char> = tc.corpus.iter().flat_map(|s| s.chars.iter().copied()).chain("ab".chars()).collect();
+            let n = rng.urange(280, 340);
+            let chars = text::text_from(&mut rng, &alpha, n);
+            let labels: Vec<u8> = (0..n - 1).map(|_| rng.weighted(&[5, 4, 1]) as u8).collect();
+            tc.corpus.push(RefSentence { chars, labels, tags: vec![vec![]; n] });
+            if rng.chance(1, 2) {
+                tc.cfg.char_w = rng.urange(129, 200) as u8;
+                tc.cfg.char_n = tc.cfg.char_n.clamp(1, 2);
+            } else {
+                tc.cfg.type_w = rng.urange(129, 200) as u8;
+                tc.cfg.type_n = tc.cfg.type_n.clamp(1, 2);
+            }
+            ctx.count("configs_with_window_above_128_and_long_sentence", 1);
+        }
+        if k % 400 == 13 {
+            // one training sentence with character positions beyond 65535 and dictionary words near its end
+            let alpha: Vec<char> = tc.corpus.iter().flat_map(|s| s.chars.iter().copied()).chain("ab".chars()).collect();
+            let n = rng.urange(66_000, 70_000);
+            let chars = text::text_from(&mut rng, &alpha, n);
+            let labels: Vec<u8> = (0..n - 1).map(|i| if i + 40 > n { rng.below(2) as u8 } else { 2 }).collect();
+            let w: String = chars[n - 6..n - 3].iter().collect();
+            if !tc.cfg.dict.contains(&w) {
+                tc.cfg.dict.push(w);
+            }
+            tc.cfg.char_w = tc.cfg.char_w.min(2);
+            tc.cfg.type_w = tc.cfg.type_w.min(2);
+            tc.corpus.push(RefSentence { chars, labels, tags: vec![vec![]; n] });
+            ctx.count("corpora_with_sentence_longer_than_65535", 1);
+        }
         let r = guard(|| {
             let sents: Vec<Sentence<'static, 'static>> = tc
                 .corpus
@@ -324,13 +371,14 @@ pub fn run_c10(ctx: &mut Ctx, from: u64, to: u64) {
         let mut multi = 0u64;
         for (si, s) in tc.corpus.iter().enumerate() {
             let types = ctypes(&s.chars);
+            let mut all = sentence_features(&tc.cfg, &s.chars, &types);
             for (b, &l) in s.labels.iter().enumerate() {
                 if l == 2 {
                     unknown += 1;
                     continue;
                 }
                 let mut m: BTreeMap<RFeature, u64> = BTreeMap::new();
-                for f in boundary_features(&tc.cfg, &s.chars, &types, b) {
+                for f in std::mem::take(&mut all[b]) {
                     *m.entry(f).or_insert(0) += 1;
                 }
                 if m.values().any(|&c| c > 1) {
@@ -510,10 +558,11 @@ pub fn run_c09(ctx: &mut Ctx, from: u64, to: u64) {
         let mut nonzero = 0u64;
         'outer: for (t, sc) in tc.eval.iter().zip(&scores) {
             let types = ctypes(t);
+            let all = sentence_features(&tc.cfg, t, &types);
             for b in 0..t.len().saturating_sub(1) {
                 let mut want = i64::from(log.bias);
                 let mut used = vec![];
-                for f in boundary_features(&tc.cfg, t, &types, b) {
+                for f in all[b].iter().cloned() {
                     if let Some(w) = qw.get(&f) {
                         want += *w;
                         if *w != 0 {
@@ -559,6 +608,26 @@ fn use_model(model: Model, rng: &mut Rng, alpha_texts: &[Vec<char>]) -> Result<(
     let bytes = model.to_vec().map_err(|e| ("C11:trained_model_cannot_be_serialised".to_string(), format!("{e}")))?;
     let mut w = vec![];
     model.write(&mut w).map_err(|e| ("C11:trained_model_cannot_be_written".to_string(), format!("{e}")))?;
+    if w != bytes {
+        return Err(("C11:written_model_differs_from_to_vec".into(), format!("{} vs {} bytes", w.len(), bytes.len())));
+    }
+    // a writer that accepts only part of each buffer (what a compressing or network writer does)
+    struct Short(Vec<u8>, usize);
+    impl std::io::Write for Short {
+        fn write(&mut self, buf: &[u8]) -> std::io::Result<usize> {
+            let n = buf.len().min(self.1);
+            self.0.extend_from_slice(&buf[..n]);
+            Ok(n)
+        }
+        fn flush(&mut self) -> std::io::Result<()> {
+            Ok(())
+        }
+    }
+    let mut sw = Short(vec![], 1 + bytes.len() % 61);
+    model.write(&mut sw).map_err(|e| ("C11:trained_model_cannot_be_written".to_string(), format!("short writer: {e}")))?;
+    if sw.0 != bytes {
+        return Err(("C11:model_written_through_short_writer_is_incomplete".into(), format!("{} of {} bytes", sw.0.len(), bytes.len())));
+    }
     let (mir, _) = ModelData::from_bytes(&bytes).map_err(|e| ("C11:trained_model_unreadable_by_mirror".to_string(), e))?;
     let in16 = |w: &i32| (-32768..=32767).contains(w);
     let all16 = mir.char_ngram_model.iter().all(|d| d.weights.iter().all(in16))
@@ -609,6 +678,22 @@ pub fn run_c11(ctx: &mut Ctx, from: u64, to: u64) {
                 tc.cfg.type_w = rng.urange(5, 16) as u8;
             }
         }
+        if k % 25 == 11 {
+            // the upper half of the u8 range (the configuration type allows any window up to 255)
+            let big = *rng.pick(&[127usize, 128, 129, 144, 200, 254, 255]) as u8;
+            match rng.below(3) {
+                0 => tc.cfg.char_w = big,
+                1 => tc.cfg.type_w = big,
+                _ => {
+                    tc.cfg.char_w = big;
+                    tc.cfg.type_w = *rng.pick(&[128usize, 255]) as u8;
+                }
+            }
+            tc.cfg.char_n = tc.cfg.char_n.min(2);
+            tc.cfg.type_n = tc.cfg.type_n.min(2);
+        }
+        ctx.flag("configs_with_char_window_of_128_or_more", tc.cfg.char_w >= 128);
+        ctx.flag("configs_with_type_window_of_128_or_more", tc.cfg.type_w >= 128);
         ctx.flag("configs_with_window_of_8_or_more", tc.cfg.char_w >= 8 || tc.cfg.type_w >= 8);
         if k == 0 {
             // one large dictionary: the trained model decodes to more than 16 MiB of containers
